@@ -123,9 +123,25 @@ func site() string {
 	return strings.Join(parts, "<-")
 }
 
+var quiet sync.Map // goroutine id -> struct{}: goroutines that are not perturbed
+
+// SetQuiet exempts (or re-includes) the calling goroutine from schedule perturbation, so
+// that a workload can delay one party at its lock operations while another runs at full
+// speed through the window.
+func SetQuiet(q bool) {
+	if q {
+		quiet.Store(goid(), struct{}{})
+	} else {
+		quiet.Delete(goid())
+	}
+}
+
 func perturb() {
 	p := perturbPct.Load()
 	if p == 0 {
+		return
+	}
+	if _, q := quiet.Load(goid()); q {
 		return
 	}
 	x := rng.Add(0x9E3779B97F4A7C15)
